@@ -343,16 +343,16 @@ Ltac rinv H :=
   apply reach_inv in H; destruct H as [H | (v & c & G & I & H)];
   [ | vm_compute in G;
       first [ discriminate G
-            | inversion G; subst v; simpl in I;
+            | injection G as G; subst v; simpl in I;
               repeat (destruct I as [I|I]; [subst c; rinv H | ]); try contradiction ] ].
 
 Ltac closed_concrete :=
   let l := fresh "l" in let v := fresh "v" in let c := fresh "c" in
-  let G := fresh "G" in let I := fresh "I" in
-  intros l v c G I;
+  let G := fresh "G" in let I := fresh "I" in let B := fresh "B" in
+  intros l v c G I; pose proof (hget_Some_lt _ _ _ G) as B; simpl in B;
   repeat (destruct l as [|l];
-          [ vm_compute in G; inversion G; subst v; simpl in I; simpl; intuition lia | ]);
-  vm_compute in G; discriminate G.
+          [ vm_compute in G; injection G as G; subst v; simpl in I; simpl; intuition lia
+          | try lia ]).
 
 (* a record holds the list [1]; user code holds the atom [0] *)
 Definition alias_s0 : astate :=
@@ -418,4 +418,362 @@ Proof.
     + intros c [<-|[]]. exists 0. split; [simpl; auto|]. apply reach_refl. simpl; lia.
     + exists (HList []). split; auto.
   - vm_compute. discriminate.
+Qed.
+
+(* ------------------------------------------------------------------ *)
+(* 3. Deep edges preserve the invariant                                 *)
+(* ------------------------------------------------------------------ *)
+
+Lemma user_reach_lt : forall s l, user_reach s l -> l < List.length (a_heap s).
+Proof. intros s l (u & _ & R). eapply reach_lt; eauto. Qed.
+
+Lemma rec_reach_lt : forall s l, rec_reach s l -> l < List.length (a_heap s).
+Proof. intros s l (u & _ & R). eapply reach_lt; eauto. Qed.
+
+(* a path that never meets the mutated object is a path of the old heap *)
+Lemma reach_hset_avoid : forall h l v a x,
+  reach (hset h l v) a x -> (forall y, reach h a y -> y <> l) -> reach h a x.
+Proof.
+  intros h l v a x R. induction R as [a L | a w c x G I R IH]; intros Hav.
+  - apply reach_refl. rewrite hset_length in L; auto.
+  - assert (La : a < List.length h).
+    { apply hget_Some_lt in G. rewrite hset_length in G; auto. }
+    assert (N : a <> l) by (apply Hav; apply reach_refl; auto).
+    rewrite hget_hset_other in G; auto.
+    eapply reach_step; eauto. apply IH. intros y Ry. apply Hav. eapply reach_step; eauto.
+Qed.
+
+(* after an in-place store of user-reachable children, what user code reaches
+   it could already reach *)
+Lemma reach_hset_user : forall s l v,
+  heap_closed (a_heap s) ->
+  (forall c, In c (children v) -> user_reach s c) ->
+  forall a x, reach (hset (a_heap s) l v) a x -> user_reach s a -> user_reach s x.
+Proof.
+  intros s l v Hc Hv a x R. induction R as [a L | a w c x G I R IH]; intros Ua; auto.
+  apply IH. destruct (hget_hset_cases _ _ _ _ _ G) as [[-> ->]|[N G']].
+  - apply Hv; auto.
+  - destruct Ua as (u & Iu & Ru). exists u. split; auto.
+    eapply reach_child; eauto.
+Qed.
+
+Lemma good_mutate : forall s l v,
+  good s -> legal s (SMutate l v) ->
+  good {| a_heap := hset (a_heap s) l v; a_user := a_user s; a_rec := a_rec s |}.
+Proof.
+  intros s l v (Hc & Sep & Hu & Hr) (Ul & Uv & _).
+  unfold good; simpl. split; [|split; [|split]].
+  - intros a w c G I. rewrite hset_length.
+    destruct (hget_hset_cases _ _ _ _ _ G) as [[-> ->]|[N G']].
+    + apply user_reach_lt. apply Uv; auto.
+    + eapply Hc; eauto.
+  - intros x (u & Iu & Ru) (r & Ir & Rr); simpl in *.
+    apply (Sep x).
+    + apply (reach_hset_user s l v Hc Uv u x Ru).
+      exists u. split; auto. apply reach_refl; auto.
+    + exists r. split; auto. apply (reach_hset_avoid _ l v r x Rr).
+      intros y Ry ->. apply (Sep l); auto. exists r; auto.
+  - intros u Iu. rewrite hset_length. auto.
+  - intros r Ir. rewrite hset_length. auto.
+Qed.
+
+Lemma good_new : forall s v,
+  good s -> legal s (SNew v) ->
+  good {| a_heap := a_heap s ++ [v]; a_user := List.length (a_heap s) :: a_user s; a_rec := a_rec s |}.
+Proof.
+  intros s v (Hc & Sep & Hu & Hr) Uv. simpl in Uv.
+  unfold good; simpl. split; [|split; [|split]].
+  - intros a w c G I. rewrite app_length; simpl.
+    destruct (hget_app_cases _ _ _ _ G) as [[L G']|[-> ->]].
+    + specialize (Hc _ _ _ G' I). lia.
+    + apply Uv, user_reach_lt in I. lia.
+  - intros x (u & Iu & Ru) (r & Ir & Rr); simpl in *.
+    apply reach_app_old in Rr; auto.
+    assert (Rx : rec_reach s x) by (exists r; auto).
+    apply (Sep x); auto.
+    destruct Iu as [<-|Iu].
+    + apply reach_inv in Ru. destruct Ru as [->|(w & c & G & I & Ru)].
+      * apply rec_reach_lt in Rx. lia.
+      * rewrite hget_app_new in G. injection G as <-.
+        destruct (Uv _ I) as (u & Iu & Rc). exists u. split; auto.
+        eapply reach_trans; eauto.
+        eapply reach_app_old; eauto. eapply reach_lt; eauto.
+    + exists u. split; auto. eapply reach_app_old; eauto.
+  - intros u [<-|Iu]; rewrite app_length; simpl; [lia|]. specialize (Hu _ Iu). lia.
+  - intros r Ir. rewrite app_length; simpl. specialize (Hr _ Ir). lia.
+Qed.
+
+Lemma good_in : forall fuel s l h' c,
+  good s -> deep_copy fuel (a_heap s) l = (h', c) ->
+  good {| a_heap := h'; a_user := a_user s; a_rec := c :: a_rec s |}.
+Proof.
+  intros fuel s l h' c (Hc & Sep & Hu & Hr) E.
+  destruct (deep_copy_fresh_any _ _ _ _ _ Hc E) as ((ext & X) & C' & B & New & Old).
+  assert (Len : List.length (a_heap s) <= List.length h') by (subst h'; rewrite app_length; lia).
+  unfold good; simpl. split; [|split; [|split]]; auto.
+  - intros x (u & Iu & Ru) (r & Ir & Rr); simpl in *.
+    apply Old in Ru; auto.
+    destruct Ir as [<-|Ir].
+    + apply New in Rr. apply reach_lt in Ru. lia.
+    + apply Old in Rr; auto. apply (Sep x); [exists u|exists r]; auto.
+  - intros u Iu. specialize (Hu _ Iu). lia.
+  - intros r [<-|Ir]; [lia|]. specialize (Hr _ Ir). lia.
+Qed.
+
+Lemma good_out : forall fuel s l h' c,
+  good s -> deep_copy fuel (a_heap s) l = (h', c) ->
+  good {| a_heap := h'; a_user := c :: a_user s; a_rec := a_rec s |}.
+Proof.
+  intros fuel s l h' c (Hc & Sep & Hu & Hr) E.
+  destruct (deep_copy_fresh_any _ _ _ _ _ Hc E) as ((ext & X) & C' & B & New & Old).
+  assert (Len : List.length (a_heap s) <= List.length h') by (subst h'; rewrite app_length; lia).
+  unfold good; simpl. split; [|split; [|split]]; auto.
+  - intros x (u & Iu & Ru) (r & Ir & Rr); simpl in *.
+    apply Old in Rr; auto.
+    destruct Iu as [<-|Iu].
+    + apply New in Ru. apply reach_lt in Rr. lia.
+    + apply Old in Ru; auto. apply (Sep x); [exists u|exists r]; auto.
+  - intros u [<-|Iu]; [lia|]. specialize (Hu _ Iu). lia.
+  - intros r Ir. specialize (Hr _ Ir). lia.
+Qed.
+
+(* Freshness of a deep copy does not depend on the fuel (deep_copy_fresh_any):
+   with too little fuel the copy is truncated, but still fresh.  So the depth
+   bound on the crossing value is not needed here; the theorem is stated with
+   exactly [good s] and [legal s st]. *)
+Theorem deep_step_preserves : forall fuel s st,
+  good s -> legal s st -> good (astep_run Deep Deep fuel s st).
+Proof.
+  intros fuel s st G L. destruct st as [l v | v | l | r]; simpl.
+  - apply good_mutate; auto.
+  - apply good_new; auto.
+  - destruct (deep_copy fuel (a_heap s) l) as [h' c] eqn:E. eapply good_in; eauto.
+  - destruct (deep_copy fuel (a_heap s) r) as [h' c] eqn:E. eapply good_out; eauto.
+Qed.
+
+(* the same, in the form with the depth bound on the value that crosses *)
+Corollary deep_step_preserves_bounded : forall fuel s st,
+  good s -> legal s st ->
+  match st with SIn l | SOut l => depth_le (a_heap s) fuel l | _ => True end ->
+  good (astep_run Deep Deep fuel s st).
+Proof. intros fuel s st G L _. apply deep_step_preserves; auto. Qed.
+
+(* ------------------------------------------------------------------ *)
+(* 4. user code cannot change what the records hold                     *)
+(* ------------------------------------------------------------------ *)
+
+Theorem records_unchanged_by_user : forall fuel s st r x,
+  good s -> legal s st -> (match st with SMutate _ _ | SNew _ => True | _ => False end) ->
+  In r (a_rec s) -> reach (a_heap s) r x ->
+  hget (a_heap (astep_run Deep Deep fuel s st)) x = hget (a_heap s) x.
+Proof.
+  intros fuel s st r x (Hc & Sep & Hu & Hr) L K Ir R.
+  destruct st as [l v | v | l | l]; try contradiction; simpl.
+  - apply hget_hset_other. intros ->. destruct L as (Ul & _).
+    apply (Sep l); auto. exists r; auto.
+  - apply hget_app_old. eapply reach_lt; eauto.
+Qed.
+
+(* ------------------------------------------------------------------ *)
+(* 5. all reachable states are good                                     *)
+(* ------------------------------------------------------------------ *)
+
+Definition run_steps (kin kout : edge_kind) (fuel : nat) (s : astate) (l : list astep) : astate :=
+  fold_left (astep_run kin kout fuel) l s.
+
+(* each step is legal in the state where it runs, and each crossing value
+   respects the depth bound (so that its copy is complete) *)
+Fixpoint all_legal (kin kout : edge_kind) (fuel : nat) (s : astate) (l : list astep) : Prop :=
+  match l with
+  | [] => True
+  | st :: rest =>
+      legal s st /\
+      match st with SIn x | SOut x => depth_le (a_heap s) fuel x | _ => True end /\
+      all_legal kin kout fuel (astep_run kin kout fuel s st) rest
+  end.
+
+Theorem deep_runs_good : forall fuel l s,
+  good s -> all_legal Deep Deep fuel s l -> good (run_steps Deep Deep fuel s l).
+Proof.
+  intros fuel l; induction l as [|st rest IH]; intros s G A; simpl in *; auto.
+  destruct A as (L & _ & A). apply IH; auto. apply deep_step_preserves; auto.
+Qed.
+
+Example good_init : good {| a_heap := []; a_user := []; a_rec := [] |}.
+Proof.
+  unfold good; simpl. split; [|split; [|split]].
+  - intros l v c G. destruct l; discriminate G.
+  - intros l (u & [] & _).
+  - intros u [].
+  - intros r [].
+Qed.
+
+(* every state reached from the empty state by legal steps is good *)
+Corollary deep_runs_from_init_good : forall fuel l,
+  all_legal Deep Deep fuel {| a_heap := []; a_user := []; a_rec := [] |} l ->
+  good (run_steps Deep Deep fuel {| a_heap := []; a_user := []; a_rec := [] |} l).
+Proof. intros. apply deep_runs_good; auto. apply good_init. Qed.
+
+(* ------------------------------------------------------------------ *)
+(* 2'. (stretch) the deep copy has the same shape as the original       *)
+(* ------------------------------------------------------------------ *)
+
+(* [same_shape_n n h l h' c]: the tree below [l] in [h] (of depth < n) and the
+   tree below [c] in [h'] are equal up to the names of the locations *)
+Fixpoint same_shape_n (n : nat) (h : heap) (l : loc) (h' : heap) (c : loc) : Prop :=
+  match n with
+  | O => False
+  | S n =>
+      match hget h l, hget h' c with
+      | Some (HAtom z), Some (HAtom z') => z = z'
+      | Some (HList cs), Some (HList cs') =>
+          Forall2 (fun a b => same_shape_n n h a h' b) cs cs'
+      | Some (HDict d), Some (HDict d') =>
+          Forall2 (fun a b => fst a = fst b /\ same_shape_n n h (snd a) h' (snd b)) d d'
+      | _, _ => False
+      end
+  end.
+
+Definition same_shape (h : heap) (l : loc) (h' : heap) (c : loc) : Prop :=
+  exists n, same_shape_n n h l h' c.
+
+Lemma Forall2_impl_in : forall (A B : Type) (R1 R2 : A -> B -> Prop) l1 l2,
+  Forall2 R1 l1 l2 -> (forall a b, In a l1 -> R1 a b -> R2 a b) -> Forall2 R2 l1 l2.
+Proof.
+  induction 1; intros K; constructor.
+  - apply K; simpl; auto.
+  - apply IHForall2. intros; apply K; simpl; auto.
+Qed.
+
+Lemma depth_le_app : forall n h e a, depth_le h n a -> depth_le (h ++ e) n a.
+Proof.
+  induction n as [|n IH]; intros h e a D; inversion D; subst.
+  econstructor; [apply hget_app_old_Some; eauto|]. intros c I. apply IH; auto.
+Qed.
+
+(* extending the target heap keeps the shape relation *)
+Lemma same_shape_n_app_tgt : forall n h a h1 e b,
+  same_shape_n n h a h1 b -> same_shape_n n h a (h1 ++ e) b.
+Proof.
+  induction n as [|n IH]; intros h a h1 e b H; [exact H|].
+  cbn [same_shape_n] in *.
+  destruct (hget h1 b) as [vb|] eqn:G.
+  2:{ destruct (hget h a) as [[z|cs|d]|]; contradiction. }
+  rewrite (hget_app_old_Some _ e _ _ G).
+  destruct (hget h a) as [[z|cs|d]|]; destruct vb as [z'|cs'|d']; try contradiction; auto.
+  - eapply Forall2_impl_in; [exact H|]. intros x y _ K; apply IH; auto.
+  - eapply Forall2_impl_in; [exact H|]. intros x y _ [K1 K2]; split; auto.
+Qed.
+
+(* the source heap may be cut back to the part that holds the original *)
+Lemma same_shape_n_app_src : forall n h e a h1 b,
+  depth_le h n a -> same_shape_n n (h ++ e) a h1 b -> same_shape_n n h a h1 b.
+Proof.
+  induction n as [|n IH]; intros h e a h1 b D H; [exact H|].
+  inversion D as [n' a' v G Dc]; subst.
+  cbn [same_shape_n] in *.
+  rewrite (hget_app_old_Some _ e _ _ G) in H. rewrite G.
+  destruct v as [z|cs|d]; destruct (hget h1 b) as [[z'|cs'|d']|]; try contradiction; auto.
+  - eapply Forall2_impl_in; [exact H|]. intros x y I K. simpl in K.
+    apply (IH h e); auto.
+  - eapply Forall2_impl_in; [exact H|]. intros x y I [K1 K2]. split; auto.
+    apply (IH h e); auto. apply Dc. simpl. apply in_map; auto.
+Qed.
+
+Definition shape_spec (f : nat) : Prop :=
+  forall h l h' c, heap_closed h -> depth_le h f l -> deep_copy f h l = (h', c) ->
+    same_shape_n f h l h' c.
+
+Lemma fold_list_shape : forall f, shape_spec f ->
+  forall cs h hh out h1 cs',
+    ext_ok h hh ->
+    (forall c, In c cs -> depth_le h f c) ->
+    fold_left (fun acc c => let '(hh, out) := acc in
+                            let '(hh', c') := deep_copy f hh c in (hh', out ++ [c']))
+              cs (hh, out) = (h1, cs') ->
+    (exists e, h1 = hh ++ e) /\
+    exists new, cs' = out ++ new /\ Forall2 (fun a b => same_shape_n f h a h1 b) cs new.
+Proof.
+  intros f IH cs; induction cs as [|a cs IHcs]; intros h hh out h1 cs' A D F; simpl in F.
+  - inversion F; subst. split; [exists []; rewrite app_nil_r; auto|].
+    exists []. rewrite app_nil_r. auto.
+  - destruct (deep_copy f hh a) as [hh1 c1] eqn:E.
+    destruct (deep_copy_ext f _ _ _ _ (proj1 (proj2 A)) E) as [B _].
+    pose proof A as [[e0 X0] _]. pose proof B as [[e1 X1] _].
+    assert (S1 : same_shape_n f h a hh1 c1).
+    { subst hh. eapply same_shape_n_app_src; [apply D; simpl; auto|].
+      apply IH; [exact (proj1 (proj2 A)) | apply depth_le_app; apply D; simpl; auto | exact E]. }
+    destruct (IHcs h hh1 (out ++ [c1]) h1 cs') as [[e X] [new [Y Z]]]; auto.
+    { eapply ext_ok_trans; eauto. }
+    { intros c I. apply D; simpl; auto. }
+    split; [exists (e1 ++ e); rewrite X, X1, app_assoc; auto|].
+    exists (c1 :: new). split; [rewrite Y, <- app_assoc; auto|].
+    constructor; auto. rewrite X. apply same_shape_n_app_tgt; auto.
+Qed.
+
+Lemma fold_dict_shape : forall f, shape_spec f ->
+  forall (d : list (string * loc)) h hh out h1 d',
+    ext_ok h hh ->
+    (forall c, In c (map snd d) -> depth_le h f c) ->
+    fold_left (fun acc kc => let '(hh, out) := acc in
+                             let '(hh', c') := deep_copy f hh (snd kc) in (hh', out ++ [(fst kc, c')]))
+              d (hh, out) = (h1, d') ->
+    (exists e, h1 = hh ++ e) /\
+    exists new, d' = out ++ new /\
+      Forall2 (fun a b => fst a = fst b /\ same_shape_n f h (snd a) h1 (snd b)) d new.
+Proof.
+  intros f IH d; induction d as [|a d IHd]; intros h hh out h1 d' A D F; simpl in F.
+  - inversion F; subst. split; [exists []; rewrite app_nil_r; auto|].
+    exists []. rewrite app_nil_r. auto.
+  - destruct (deep_copy f hh (snd a)) as [hh1 c1] eqn:E.
+    destruct (deep_copy_ext f _ _ _ _ (proj1 (proj2 A)) E) as [B _].
+    pose proof A as [[e0 X0] _]. pose proof B as [[e1 X1] _].
+    assert (S1 : same_shape_n f h (snd a) hh1 c1).
+    { subst hh. eapply same_shape_n_app_src; [apply D; simpl; auto|].
+      apply IH; [exact (proj1 (proj2 A)) | apply depth_le_app; apply D; simpl; auto | exact E]. }
+    destruct (IHd h hh1 (out ++ [(fst a, c1)]) h1 d') as [[e X] [new [Y Z]]]; auto.
+    { eapply ext_ok_trans; eauto. }
+    { intros c I. apply D; simpl; auto. }
+    split; [exists (e1 ++ e); rewrite X, X1, app_assoc; auto|].
+    exists ((fst a, c1) :: new). split; [rewrite Y, <- app_assoc; auto|].
+    constructor; auto. simpl. split; auto. rewrite X. apply same_shape_n_app_tgt; auto.
+Qed.
+
+Lemma deep_copy_shape_n : forall fuel, shape_spec fuel.
+Proof.
+  induction fuel as [|f IH]; intros h l h' c Hc D E.
+  - inversion D.
+  - inversion D as [n' a' v G Dc]; subst.
+    rewrite deep_copy_S, G in E. cbn [same_shape_n]. rewrite G.
+    destruct v as [z|cs|d].
+    + unfold halloc in E. inversion E; subst. rewrite hget_app_new. reflexivity.
+    + destruct (fold_left _ cs (h, [])) as [h1 cs'] eqn:F.
+      destruct (fold_list_shape f IH cs h h [] h1 cs' (ext_ok_refl _ Hc) Dc F)
+        as [_ [new [Y Z]]].
+      simpl in Y. subst new.
+      unfold halloc in E. inversion E; subst. rewrite hget_app_new.
+      eapply Forall2_impl_in; [exact Z|]. intros x y _ K; apply same_shape_n_app_tgt; auto.
+    + destruct (fold_left _ d (h, [])) as [h1 d'] eqn:F.
+      destruct (fold_dict_shape f IH d h h [] h1 d' (ext_ok_refl _ Hc) Dc F)
+        as [_ [new [Y Z]]].
+      simpl in Y. subst new.
+      unfold halloc in E. inversion E; subst. rewrite hget_app_new.
+      eapply Forall2_impl_in; [exact Z|]. intros x y _ [K1 K2]; split; auto.
+      apply same_shape_n_app_tgt; auto.
+Qed.
+
+(* here the depth bound is essential: with too little fuel the copy is truncated *)
+Theorem deep_copy_same_shape : forall fuel h l h' c,
+  heap_closed h -> depth_le h fuel l -> deep_copy fuel h l = (h', c) ->
+  same_shape h l h' c.
+Proof. intros fuel h l h' c Hc D E. exists fuel. eapply deep_copy_shape_n; eauto. Qed.
+
+(* without the bound it fails: fuel 1 on the nested list [[ ]] gives an atom *)
+Example deep_copy_truncates :
+  let h := [HList []; HList [0]] in
+  heap_closed h /\ hget h 1 = Some (HList [0]) /\
+  hget (fst (deep_copy 1 h 1)) (snd (deep_copy 1 h 1)) = Some (HList [2]) /\
+  hget (fst (deep_copy 1 h 1)) 2 = Some (HAtom 0).
+Proof.
+  simpl. split; [closed_concrete|]. vm_compute. auto.
 Qed.
